@@ -197,60 +197,221 @@ func contextFlagTransfer(c *Ctx, fn *ssa.Function, seen map[*ssa.Function]bool) 
 		return "keeps", "recursive"
 	}
 	seen[fn] = true
-	verdict, why := "", ""
-	// stores to the DontAutoCreate field of a local Context
-	eachInstr(fn, func(ins ssa.Instruction) {
-		st, ok := ins.(*ssa.Store)
-		if !ok {
-			return
+	// every Context this method can return: a local Context on which the flag was
+	// stored on every path before the return, or the result of another Context method
+	verdicts := map[string]string{}
+	note := func(v, why string) {
+		if _, ok := verdicts[v]; !ok {
+			verdicts[v] = why
 		}
-		fa, ok := st.Addr.(*ssa.FieldAddr)
-		if !ok || fieldName(fa) != "DontAutoCreate" {
-			return
-		}
+	}
+	classifyStore := func(st *ssa.Store) (string, string) {
 		switch v := st.Val.(type) {
 		case *ssa.Const:
 			if v.Value != nil && v.Value.String() == "true" {
-				verdict, why = "sets-true", "DontAutoCreate = true"
-			} else {
-				verdict, why = "sets-false", "DontAutoCreate = false"
+				return "sets-true", "DontAutoCreate = true"
 			}
+			return "sets-false", "DontAutoCreate = false"
 		case *ssa.UnOp:
 			if fa2, ok := v.X.(*ssa.FieldAddr); ok && fieldName(fa2) == "DontAutoCreate" {
 				if _, isParam := fa2.X.(*ssa.Parameter); isParam {
-					if verdict == "" {
-						verdict, why = "keeps", "copies DontAutoCreate from the receiver"
+					return "keeps", "copies DontAutoCreate from the receiver"
+				}
+			}
+		}
+		return "unknown", "DontAutoCreate set from a computed value"
+	}
+	var judge func(v ssa.Value, ret *ssa.Return, d int)
+	judge = func(v ssa.Value, ret *ssa.Return, d int) {
+		if d > 6 {
+			note("unknown", "deep")
+			return
+		}
+		switch x := v.(type) {
+		case *ssa.UnOp:
+			al, ok := x.X.(*ssa.Alloc)
+			if !ok {
+				note("unknown", "returns "+exprOfValue(v))
+				return
+			}
+			// stores to al.DontAutoCreate
+			var stores []*ssa.Store
+			if al.Referrers() != nil {
+				for _, ref := range *al.Referrers() {
+					if fa, ok := ref.(*ssa.FieldAddr); ok && fieldName(fa) == "DontAutoCreate" && fa.Referrers() != nil {
+						for _, r2 := range *fa.Referrers() {
+							if st, ok := r2.(*ssa.Store); ok && st.Addr == ssa.Value(fa) {
+								stores = append(stores, st)
+							}
+						}
 					}
 				}
 			}
+			isStore := func(ins ssa.Instruction) bool {
+				for _, st := range stores {
+					if ins == ssa.Instruction(st) {
+						return true
+					}
+				}
+				return false
+			}
+			if len(stores) == 0 {
+				// the receiver itself (value receiver spilled) keeps the flag
+				if al.Referrers() != nil {
+					for _, ref := range *al.Referrers() {
+						if st, ok := ref.(*ssa.Store); ok && st.Addr == ssa.Value(al) {
+							if _, isParam := st.Val.(*ssa.Parameter); isParam {
+								note("keeps", "returns the receiver")
+								return
+							}
+							if call, isCall := st.Val.(*ssa.Call); isCall {
+								judge(call, ret, d+1)
+								return
+							}
+						}
+					}
+				}
+			}
+			// a context derived first and then given its own flag: the explicit store decides
+			derived := false
+			if al.Referrers() != nil {
+				for _, ref := range *al.Referrers() {
+					if st, ok := ref.(*ssa.Store); ok && st.Addr == ssa.Value(al) {
+						if _, isCall := st.Val.(*ssa.Call); isCall {
+							derived = true
+						}
+						if _, isParam := st.Val.(*ssa.Parameter); isParam {
+							derived = true
+						}
+					}
+				}
+			}
+			if len(stores) == 0 || (!derived && pathAvoiding(fn, al.Block(), instrIndex(al), ret.Block(), len(ret.Block().Instrs)-1, isStore)) {
+				note("drops", "a Context built at "+c.P.pos(al.Pos())+" is returned without DontAutoCreate having been set on every path")
+				return
+			}
+			for _, st := range stores {
+				v2, w := classifyStore(st)
+				note(v2, w)
+			}
+		case *ssa.Call:
+			cal := x.Call.StaticCallee()
+			if cal != nil && cal.Signature.Recv() != nil && namedTypeName(cal.Signature.Recv().Type()) == "Context" {
+				if _, isParam := x.Call.Args[0].(*ssa.Parameter); isParam {
+					v2, w := contextFlagTransfer(c, cal, seen)
+					note(v2, "through "+cal.Name()+": "+w)
+					return
+				}
+			}
+			note("unknown", "returns the result of "+exprOfValue(v))
+		case *ssa.Phi:
+			for _, e := range x.Edges {
+				judge(e, ret, d+1)
+			}
 		default:
-			verdict, why = "unknown", "DontAutoCreate set from a computed value"
+			note("unknown", "returns "+exprOfValue(v))
 		}
-	})
-	if verdict != "" {
-		return verdict, why
 	}
-	// otherwise it must be derived through another Context method
-	eachInstr(fn, func(ins ssa.Instruction) {
-		call, ok := ins.(*ssa.Call)
-		if !ok {
-			return
+	nret := 0
+	for _, b := range fn.Blocks {
+		if ret, ok := b.Instrs[len(b.Instrs)-1].(*ssa.Return); ok && len(ret.Results) == 1 {
+			nret++
+			judge(ret.Results[0], ret, 0)
 		}
-		cal := call.Call.StaticCallee()
-		if cal == nil || cal.Signature.Recv() == nil || namedTypeName(cal.Signature.Recv().Type()) != "Context" {
-			return
+	}
+	if nret == 0 {
+		return "unknown", "no return"
+	}
+	for _, v := range []string{"drops", "sets-false", "unknown", "sets-true", "keeps"} {
+		if why, ok := verdicts[v]; ok {
+			return v, why
 		}
-		if cal.Signature.Results().Len() == 1 && namedTypeName(cal.Signature.Results().At(0).Type()) == "Context" {
-			if _, isParam := call.Call.Args[0].(*ssa.Parameter); isParam {
-				v, w := contextFlagTransfer(c, cal, seen)
-				verdict, why = v, "through "+cal.Name()+": "+w
+	}
+	return "unknown", "no DontAutoCreate transfer found"
+}
+
+// ---- X6 (C08): handlers do not build contexts from scratch ---------------------
+
+// ruleX6: a function that receives a Context (a handler or one of its helpers)
+// and builds another one with a composite literal — instead of deriving it with
+// ChildContext / Clone — must copy DontAutoCreate from the context it received
+// (or set it true). A literal without the flag is writable: traversal below it
+// auto-creates paths even inside `select(...)` or `... as $x`.
+func ruleX6(c *Ctx, rule string) {
+	r := c.R
+	r.Rule(rule, "a Context built by a literal inside a handler carries the read-only flag of the context received", 1)
+	n := 0
+	for _, fn := range c.moduleFuncs() {
+		if !strings.HasPrefix(funcKey(fn), "yqlib.") {
+			continue
+		}
+		var ctxParam *ssa.Parameter
+		for _, p := range fn.Params {
+			if namedTypeName(p.Type()) == "Context" {
+				ctxParam = p
 			}
 		}
-	})
-	if verdict == "" {
-		return "unknown", "no DontAutoCreate transfer found"
+		if ctxParam == nil || (fn.Signature.Recv() != nil && namedTypeName(fn.Signature.Recv().Type()) == "Context") {
+			continue
+		}
+		eachInstr(fn, func(ins ssa.Instruction) {
+			al, ok := ins.(*ssa.Alloc)
+			if !ok || structNameOfPtr(al.Type()) != "Context" || al.Referrers() == nil {
+				return
+			}
+			// a literal: fields are stored one by one; skip locals that receive a whole Context value
+			whole, setsNodes, flag := false, false, ""
+			for _, ref := range *al.Referrers() {
+				switch x := ref.(type) {
+				case *ssa.Store:
+					if x.Addr == ssa.Value(al) {
+						whole = true
+					}
+				case *ssa.FieldAddr:
+					if x.Referrers() == nil {
+						continue
+					}
+					for _, r2 := range *x.Referrers() {
+						st, ok := r2.(*ssa.Store)
+						if !ok || st.Addr != ssa.Value(x) {
+							continue
+						}
+						switch fieldName(x) {
+						case "MatchingNodes":
+							setsNodes = true
+						case "DontAutoCreate":
+							flag = "computed"
+							if k, isK := st.Val.(*ssa.Const); isK && k.Value != nil && k.Value.String() == "true" {
+								flag = "true"
+							}
+							if u, isU := st.Val.(*ssa.UnOp); isU {
+								if fa2, ok := u.X.(*ssa.FieldAddr); ok && fieldName(fa2) == "DontAutoCreate" {
+									flag = "copied"
+								}
+							}
+							if f2, isF := st.Val.(*ssa.Field); isF && fieldNameOfField(f2) == "DontAutoCreate" {
+								flag = "copied"
+							}
+						}
+					}
+				}
+			}
+			if whole || !setsNodes {
+				return
+			}
+			n++
+			key := fmt.Sprintf("%s/Context-literal#%d", funcKey(fn), n)
+			switch flag {
+			case "true", "copied":
+				r.Discharge(rule, key, c.P.pos(al.Pos()), "the literal sets DontAutoCreate ("+flag+")")
+			default:
+				r.Finding(rule, key, c.P.pos(al.Pos()), "a Context with nodes is built by a literal that does not carry DontAutoCreate from the context received: it is writable, so evaluating a block in it creates missing paths even under a read-only evaluation (select, as, right-hand sides)")
+			}
+		})
 	}
-	return verdict, why
+	if n == 0 {
+		r.Discharge(rule, "module/no-context-literals-in-handlers", "-", "no function that receives a Context builds another one from a literal with nodes; contexts are derived with ChildContext / Clone")
+	}
 }
 
 // ---- R1 (C02/C07/C08): operands that are read-only today stay read-only ------
